@@ -15,7 +15,7 @@
    (wf_svcs: keys strictly increasing, "gc_worker" text only under gc_worker's key, safe points >= 0), which
    every history preserves (C15_store_wellformed_always); they therefore hold at every call of every history. *)
 From Coq Require Import String.
-From PDV Require Import lib.Base lib.Skel lib.C15_Guard gen.Gen_C15 model.C15_Gc proof.C15_GcProof proof.C15_GcInterleave proof.C15_Skel.
+From PDV Require Import lib.Base lib.Skel lib.C15_Guard gen.Gen_C15 model.C15_Gc proof.C15_GcProof proof.C15_GcInterleave proof.C15_GcLoadMinX proof.C15_Skel.
 Local Open Scope Z_scope.
 
 (* ---- clause 1a: the stored cluster GC safe point never decreases (and stays readable), all interleavings ---- *)
@@ -145,6 +145,33 @@ Theorem C15_failed_service_update_keeps_store_sound :
     /\ gc (fst (svc_update_il st i ttl sp now d o)) = gc st.
 Proof. exact il_always_pf. Qed.
 
+(* ---- the same at the granularity of the single storage operations of LoadMinServiceGCSafePoint (model load_min_x /
+        svc_update_x): the LoadRange may fail; before any entry is looked at, REST deletes may have removed other services; the
+        repair save of a finite gc_worker entry may fail or half-fail (LoadMin then returns the error, possibly after having
+        pruned some entries); a Remove of an expired entry may fail (the code ignores its error and goes on); the final
+        (re)creation of gc_worker's entry may fail.  For EVERY such environment x (and d, o as above): the cluster safe point
+        is untouched, the store stays well-formed, gc_worker's never-expiring entry stays, and an answered minimum is a lower
+        bound of every live registration.  What is lost under a failing Remove is only clause 5 ("nothing expired is left")
+        for that entry, until a later call. ---- *)
+Theorem C15_fine_grained_model_is_plain_when_nothing_interferes :
+  (forall now st, load_min_x quiet_env now st = (fst (load_min now st), Some (snd (load_min now st))))
+  /\ (forall st i ttl sp now d o, svc_update_x st i ttl sp now quiet_env d o = svc_update_il st i ttl sp now d o).
+Proof. exact (conj load_min_x_quiet svc_update_x_quiet). Qed.
+
+Theorem C15_load_min_under_faults_and_rest_deletes :
+  forall x now st, wf_svcs (svcs st) -> gcw_ok (svcs st) -> now <= maxI64 ->
+    let res := load_min_x x now st in
+    wf_svcs (svcs (fst res)) /\ gcw_ok (svcs (fst res)) /\ gc (fst res) = gc st
+    /\ forall m, snd res = Some m -> lower_bound now (e_sp m) (fst res) /\ 0 <= e_sp m.
+Proof. exact load_min_x_post. Qed.
+
+Theorem C15_service_update_under_faults_and_rest_deletes :
+  forall st i ttl sp now x d o, wf_svcs (svcs st) -> gcw_ok (svcs st) -> 0 <= sp -> now <= maxI64 ->
+    let res := svc_update_x st i ttl sp now x d o in
+    wf_svcs (svcs (fst res)) /\ gcw_ok (svcs (fst res)) /\ gc (fst res) = gc st
+    /\ forall r, snd res = Some r -> lower_bound now (r_sp r) (fst res).
+Proof. exact svc_update_x_post. Qed.
+
 (* non-vacuity: a history with sequential and blocked updates, a fault, service registrations and reads *)
 Example C15_nonvacuous :
   let ls := [LLoad 0 5; LSave 0 Ok; LLoad 1 20; LLoad 2 30; LSave 1 ErrApplied; LGet; LSvc IGcw maxI64 7 1700000000;
@@ -183,5 +210,7 @@ Print Assumptions C15_gc_worker_established.
 Print Assumptions C15_gc_worker_stays.
 Print Assumptions C15_service_clauses_with_concurrent_rest_delete.
 Print Assumptions C15_failed_service_update_keeps_store_sound.
+Print Assumptions C15_load_min_under_faults_and_rest_deletes.
+Print Assumptions C15_service_update_under_faults_and_rest_deletes.
 Print Assumptions C15_expired_removed.
 Print Assumptions C15_nonpositive_ttl_removed.
